@@ -43,6 +43,7 @@ def check(ctx, tier):
     viewrules.build_indices_rules(ctx, tk, "C02.f")
     routing(ctx, tk)
     tk.purity("C02.p", [ctx.func(q) for q in ['raggedarray.indexablearray.IndexableArray.__getitem__', 'raggedarray.indexablearray.IndexableArray.get_column_values', 'raggedarray.indexablearray.IndexableArray.subset']], "the operation does not write into its operands' buffers", content_only=True)
+    unchecked_construction(ctx, tk)
     from .. import hazards as _hz, scopes as _sc
     _hz.generic(ctx, tk, "C02.z", _sc.scope(tk, "C02", depth=1))
     return {}
@@ -230,3 +231,28 @@ def routing(ctx, tk):
             ok = True if (r0 == {rows_p} and r1 == {cols_p}) else (False if (r0 == {cols_p} and r1 == {rows_p}) else None)
             ctx.decide("C02.g", g, "_get_element receives (row, col) in that order", ok, "receives (%s, %s)" % (sorted(r0), sorted(r1)),
                        node=c.node, engine="E4")
+
+
+def unchecked_construction(ctx, tk):
+    """who may switch the bounds checks off: `safe_mode=False` is passed only by the hash table for its private bucket
+    arrays; an array handed to the user with the checks off returns neighbouring cells for out-of-range (row, col)"""
+    what = "arrays are constructed with the bounds checks on, except the hash table's private bucket arrays"
+    n = 0
+    for q, f in sorted(ctx.program.funcs.items()):
+        fa = None
+        for x in ast.walk(f.node):
+            if isinstance(x, ast.Call):
+                for k in x.keywords:
+                    if k.arg == "safe_mode" and isinstance(k.value, ast.Constant) and k.value.value is False:
+                        n += 1
+                        ok = f.module.short == "hashtable"
+                        ctx.decide("C02.a", f, what, True if ok else False,
+                                   "`%s` builds an array without bounds checks outside the hash table: element reads on it (ra[1:][0, 5]) return a neighbouring row's cell instead of "
+                                   "being refused" % ast.unparse(x)[:120], node=x, key="unchecked:" + f.name, engine="E7")
+            if isinstance(x, ast.Assign) and any(isinstance(t, ast.Attribute) and t.attr == "_safe_mode" for t in x.targets) and isinstance(x.value, ast.Constant) and x.value.value is False:
+                n += 1
+                ok = f.module.short == "hashtable"
+                ctx.decide("C02.a", f, what, True if ok else False, "`%s` switches the bounds checks of an array off outside the hash table" % ast.unparse(x), node=x,
+                           key="unchecked-store:" + f.name, engine="E7")
+    if not n:
+        ctx.holds("C02.a", "raggedarray.RaggedArray.__init__", what, key="unchecked:none", engine="E7")
